@@ -41,7 +41,7 @@ func init() {
 		Run:         runC07,
 		Floors: func(tier string) map[string]int {
 			return map[string]int{"ops_judged": 1500, "refused_readonly": 300, "demotions_mid_tx": 10, "write_refused_after_loss": 5, "demotion_then_commit_refused": 8, "import_waiting_at_demotion": 4, "import_raced_by_demotion": 4, "import_refused": 10,
-				"state_connected": 5, "state_disconnected": 5, "state_never-connected": 5, "state_former-halt-holder": 5, "state_former-primary-handoff": 5, "op_dbwrite": 50, "op_journal-create": 50, "op_wal-write": 30, "op_db-unlink": 30, "op_journal-unlink": 10}
+				"state_connected": 5, "state_disconnected": 5, "state_never-connected": 5, "state_former-halt-holder": 5, "state_former-primary-handoff": 5, "state_former-halt-holder-primary-gone": 4, "state_halt-acquire-failed": 3, "op_dbwrite": 50, "op_journal-create": 50, "op_wal-write": 30, "op_db-unlink": 30, "op_journal-unlink": 10}
 		},
 	})
 }
@@ -102,10 +102,14 @@ func runC07(c *core.Case) {
 
 func c07A(c *core.Case) {
 	wal := (c.Index/3)%2 == 1
-	state := []string{"connected", "disconnected", "never-connected", "former-halt-holder", "former-primary-handoff"}[(c.Index/6)%5]
+	state := []string{"connected", "disconnected", "never-connected", "former-halt-holder", "former-primary-handoff", "former-halt-holder-primary-gone", "halt-acquire-failed"}[(c.Index/6)%7]
 	c.Count("state_"+state, 1)
 	ps := uint32(1024)
-	cl, err := cluster.New(c.Dir, []cluster.NodeOpts{{Candidate: true}, {Candidate: state == "former-primary-handoff"}})
+	var tune func(*litefs.Store)
+	if state == "halt-acquire-failed" {
+		tune = func(s *litefs.Store) { s.HaltAcquireTimeout = 300 * time.Millisecond }
+	}
+	cl, err := cluster.New(c.Dir, []cluster.NodeOpts{{Candidate: true, Tune: tune}, {Candidate: state == "former-primary-handoff", Tune: tune}})
 	if err != nil {
 		c.Inconclusive(err.Error())
 		return
@@ -153,7 +157,7 @@ func c07A(c *core.Case) {
 			c.Inconclusive("replica did not converge")
 			return
 		}
-		if state == "former-halt-holder" {
+		if state == "former-halt-holder" || state == "former-halt-holder-primary-gone" {
 			// the replica held the database's halt lock, wrote through it and gave
 			// it back (or let it lapse): it is an ordinary replica again
 			lf, err := R.Node.Open("db-lock")
@@ -177,6 +181,20 @@ func c07A(c *core.Case) {
 					rw.close()
 				}
 			}
+			if state == "former-halt-holder-primary-gone" {
+				// the primary disappears while the replica holds the lock; the
+				// application then gives the lock back (nobody is there to tell)
+				cl.Stop(0)
+				for dl := time.Now().Add(5 * time.Second); time.Now().Before(dl); time.Sleep(2 * time.Millisecond) {
+					if _, info := R.Store.PrimaryInfo(); info == nil {
+						break
+					}
+				}
+				if _, info := R.Store.PrimaryInfo(); info != nil {
+					c.Inconclusive("the replica still knows a primary after it was stopped")
+					return
+				}
+			}
 			if c.Rng.IntN(2) == 0 {
 				_ = lf.Unlock(31, 72, 72)
 			} else {
@@ -185,6 +203,67 @@ func c07A(c *core.Case) {
 			_ = lf.Release()
 			if R.Store.DB("db").HasRemoteHaltLock() {
 				c.Violate("C07/still-halt-holder-after-release", "the replica still holds the remote halt lock after releasing it", nil)
+			}
+		}
+		if state == "halt-acquire-failed" {
+			// the replica asked for the halt lock while it was behind and could not
+			// catch up in time (its stream is stalled): the acquisition fails, and a
+			// failed acquisition gives no write authority
+			// (an application's read transaction on the replica keeps the replica from
+			// applying what the primary commits meanwhile)
+			const rdOwner = 7707
+			rdf, err := R.Node.Open("db")
+			if err != nil {
+				c.Violate("C07/setup", "reader open: "+err.Error(), nil)
+				return
+			}
+			if lockRetry(rdf, rdOwner, pager.PendingByte, pager.PendingByte, false, 2000) != nil ||
+				lockRetry(rdf, rdOwner, pager.SharedFirst, pager.SharedFirst+pager.SharedSize-1, false, 2000) != nil {
+				rdf.Close(rdOwner)
+				c.Inconclusive("reader locks busy")
+				return
+			}
+			_ = rdf.Unlock(rdOwner, pager.PendingByte, pager.PendingByte)
+			var rdshm *drv.File
+			if sf, serr := R.Node.Open("db-shm"); serr == nil {
+				rdshm = sf
+				_ = lockRetry(rdshm, rdOwner, pager.WalDMS, pager.WalDMS, false, 2000)
+				_ = lockRetry(rdshm, rdOwner, pager.WalRead0, pager.WalRead0, false, 2000)
+			}
+			if img, ok := led.get("db", mon.PosOf(cl.Nodes[0].Node, "db")); ok {
+				if pw, err := newWriter(cl.Nodes[0].Node, "db", ps, wal, "delete", img, c.SubRng("pw2"), led, 2); err == nil {
+					if pw.ensure(3) == nil {
+						_, _ = pw.txn(2)
+					}
+					pw.close()
+				}
+			}
+			lf, err := R.Node.Open("db-lock")
+			if err != nil {
+				c.Violate("C07/setup", "open lock file: "+err.Error(), nil)
+				return
+			}
+			lctx, cancel := context.WithTimeout(context.Background(), 10*time.Second)
+			aerr := lf.LockWait(lctx, 33, 72, 72, true)
+			cancel()
+			if rdshm != nil {
+				rdshm.Close(rdOwner)
+			}
+			rdf.Close(rdOwner)
+			if aerr == nil {
+				_ = lf.Unlock(33, 72, 72)
+			}
+			_ = lf.Release()
+			if aerr == nil {
+				// (the replica caught up in time after all - in WAL mode a reader without
+				// a READ lock does not hold the apply back: an ordinary former holder)
+				c.Count("halt_acquire_succeeded_after_all", 1)
+			} else {
+				c.Count("halt_acquire_failed", 1)
+			}
+			if ok, _, _ := cl.WaitConverged(cl.Nodes[0], R, []string{"db"}, 5, 30*time.Second); !ok {
+				c.Inconclusive("replica did not converge after the failed acquisition")
+				return
 			}
 		}
 		if state == "former-primary-handoff" {
